@@ -38,10 +38,14 @@ def h_bankrupt(run, cfg):
     SYMONLY[0] = cfg.get('symonly')
     calls = []
 
+    subcalls = []
+
     class Spy(B.Algo):
         def __call__(self, target):
             if target is real.get('root'):
                 calls.append(target.now)
+            elif real.get('root') is not None and target is real['root'].children.get('sub'):
+                subcalls.append(target.now)          # the real sub-strategy (its shadow copy is a different object)
             return True
     real = {}
     kw = {}
@@ -69,7 +73,7 @@ def h_bankrupt(run, cfg):
     elif shape == 'nested_daily':
         cols = ['a', 'b', 'c']
         dts, data = mkdata(run, cols, nd)
-        sub = B.Strategy('sub', [A.RunDaily(), A.SelectAll(), A.WeighSpecified(**cfg['wsub']), A.Rebalance()], ['a', 'b'])
+        sub = B.Strategy('sub', [Spy(), A.RunDaily(), A.SelectAll(), A.WeighSpecified(**cfg['wsub']), A.Rebalance()], ['a', 'b'])
         s = B.Strategy('s', [Spy(), A.RunOnce(), A.WeighSpecified(**cfg['w']), A.Rebalance()], [sub, 'c'])
     elif shape == 'fi':
         cols = ['a', 'b']
@@ -82,6 +86,15 @@ def h_bankrupt(run, cfg):
     t = B.Backtest(s, data, initial_capital=100000.0, integer_positions=bool(cfg.get('int', 0)), additional_data=kw or None,
                    commissions=(lambda q, p: 0.5) if cfg.get('flatfee') else None)
     real['root'] = t.strategy
+    flagdates = []
+    _orig_flatten = t.strategy.flatten
+
+    def _flatten_spy():
+        # the date on which bt declares the bankruptcy (flatten is what the root's update calls then)
+        if not flagdates:
+            flagdates.append(t.strategy.now)
+        return _orig_flatten()
+    t.strategy.flatten = _flatten_spy
     try:
         t.run()
     except ZeroDivisionError:
@@ -93,10 +106,8 @@ def h_bankrupt(run, cfg):
     idx = list(V.index)
     n = len(idx)
     first = None
-    for i in range(n):
-        if bool(V.iloc[i] < 0):
-            first = i
-            break
+    if st.bankrupt and flagdates and flagdates[0] in idx:
+        first = idx.index(flagdates[0])
     C = B.core
     for m in st.members:
         if m is not st and isinstance(m, C.StrategyBase):
@@ -105,8 +116,9 @@ def h_bankrupt(run, cfg):
         run.check(not st.bankrupt, 'fixed-income-never-flagged')
         return
     if st.bankrupt:
-        # flagged => some recorded value is negative (on the flag date)
-        run.check(first is not None, 'flag-implies-negative-value', 'flagged but no recorded value < 0')
+        # flagged => the value recorded on the flag date is negative (one-sided, with slack for bt's own tolerances)
+        run.check(first is not None, 'flag-date-known', 'flagged but the liquidation was never called')
+        run.check_le(V.iloc[first], 0.0, EPS_MONEY, 'flag-implies-negative-value', 'value on the flag date %s' % idx[first])
     else:
         # never flagged => no date with value clearly below zero
         for i in range(n):
@@ -146,6 +158,8 @@ def h_bankrupt(run, cfg):
     # terminal: algos not run after that date; value and cash constant
     late = [c for c in calls if c > tstar]
     run.check(not late, 'algos-not-run-after-bankruptcy', str(late))
+    sublate = [c for c in subcalls if c > tstar]
+    run.check(not sublate, 'substrategy-algos-not-run-after-bankruptcy', str(sublate))
     cash = st.cash
     for i in range(first + 1, n):
         run.check_near(V.iloc[i], V.iloc[first], EPS_MONEY, 'value-constant-after-bankruptcy', str(idx[i]))
